@@ -41,4 +41,7 @@ Spec == Init /\ [][Next]_vars
 SplitsExact == (pc = "run" /\ i < Len(sp) /\ lvl[i] < D) => Splittable(PieceOf(sp, i))
 WalkRefinesAbstract == (pc = "done") => JudgeSubdivision(inn, sp, orig, tol[1], tol[2]) = "ok"
 WalkTerminates == pc # "toodeep"          \* on these universes D levels always suffice
+(* ---- liveness: subdivision terminates (C10: "subdivision terminates") ---- *)
+FairSpec == Spec /\ WF_vars(Next)
+EventuallyDone == <>(pc = "done")
 =============================================================================
